@@ -516,6 +516,19 @@ func runDraw(ops []string, r *runner, out *caseOut) {
 			o.afterShow(flush(), log, f[0] == "sync", i)
 		case f[0] == "lock" && len(f) == 6:
 			x, y, w, h, on := atoi(f[1]), atoi(f[2]), atoi(f[3]), atoi(f[4]), f[5] == "1"
+			// a wide rune just left of the region, in a row whose first cell is really unlocked by this call: what such a rune
+			// may display depends on the lock of its right half (LockRegion is backend-agnostic), so it may be drawn again.
+			// An "unlock" of cells that were not locked changes nothing outside the region.
+			if !on && w > 0 {
+				for j := y; j < y+h; j++ {
+					if o.locked[[2]int{x, j}] && x-1 >= 0 && x-1 < o.w && j >= 0 && j < o.h {
+						if _, _, _, wd := s.GetContent(x-1, j); wd > 1 {
+							o.cell(x-1, j).touched = true
+							o.tags["unlock-right-of-wide"] = true
+						}
+					}
+				}
+			}
 			s.LockRegion(x, y, w, h, on)
 			for j := y; j < y+h; j++ {
 				for k := x; k < x+w; k++ {
